@@ -340,6 +340,68 @@ def run_every_event(spec, ctx):
     ctx.sample({"planet": nm, "finder": fn, "variant": variant, "from_jde": j0, "to_jde": j1})
 
 
+# -- calendar seams: two queries a fraction of a second apart across 0h of the 1st of a month ---------------------
+
+def seam_days(kind, tier):
+    """Day numbers (0h of the civil day) of calendar seams between -1999 and 3999.  kind 'dense': every 1 January,
+    every 1 March of a leap year, and the 1st of every month of every 12th year (thorough: every year); 'medium':
+    the month starts only of every 24th year; 'sparse': 1 January (and 1 March of leap years) of every 2nd year;
+    'yearly': every 1 January."""
+    f = fast()
+    out = []
+    for y in range(-1999, 4000):
+        if kind == "sparse" and y % 2 and tier != "thorough":
+            continue
+        out.append(f.n(y, 1, 1))
+        if kind != "yearly" and cal.mlen(y, 2) == 29:
+            out.append(f.n(y, 3, 1))
+        stride = {"dense": 12, "medium": 24}.get(kind)
+        if stride and (tier == "thorough" or y % stride == 0):
+            for m in range(2, 13):
+                out.append(f.n(y, m, 1))
+    return sorted(set(out))
+
+
+def seam_kind(nm, fn):
+    if fn not in ("perihelion_aphelion", "passage_nodes"):
+        return "dense"
+    if nm in ("Venus", "Earth", "Mars"):
+        return "medium"
+    if nm == "Mercury":
+        return "sparse"
+    return "yearly"
+
+
+def run_calendar_seams(spec, ctx):
+    """spec = (variant index, [day numbers]): the finder is asked 1e-6 day before and 1e-6 day after 0h of each
+    seam day; the decimal year the period count is taken from must not run backwards there, so the later query
+    must not get an earlier event."""
+    vi, days = spec
+    nm, fn, variant, per = variants()[vi]
+    for n in days:
+        q0 = n - 0.5
+        ctx.evals += 2
+        case = {"planet": nm, "finder": fn, "variant": variant, "query": q0 + 1e-6, "previous_query": q0 - 1e-6,
+                "year": fast().date(n)[0]}
+        try:
+            r1, _ = call(nm, fn, variant, q0 - 1e-6)
+            r2, _ = call(nm, fn, variant, q0 + 1e-6)
+        except ValueError:
+            continue                # range ends are judged by the range clause
+        except Exception as ex:
+            ctx.viol(case, "%s.%s(%s) at the calendar seam JDE %r raised %r" % (nm, fn, variant, q0, ex),
+                     site="finder_exception")
+            continue
+        if r2 < r1 - 1e-4:
+            ctx.viol(case, "%s.%s(%s): the query 1e-6 d after 0h of %r gets JDE %r, the query 1e-6 d before it JDE %r "
+                     "(%.3f periods back)" % (nm, fn, variant, fast().date(n), r2, r1, (r1 - r2) / per),
+                     dev=(r1 - r2) / per, site="seam_backwards")
+    ctx.nt_count += len(days)
+    ctx.outcome((nm, fn, variant))
+    ctx.obs(vi, len(days))
+    ctx.sample({"planet": nm, "finder": fn, "variant": variant, "seam_days": len(days)})
+
+
 def check_range(case):
     nm, fn = case["planet"], case["finder"]
     out = []
@@ -464,7 +526,16 @@ def clauses(tier):
         seg = (j_hi - j_lo - 2 * per) / nseg
         for k in range(nseg):
             every.append((vi, j_lo + per + k * seg, j_lo + per + (k + 1) * seg))
+    seams = []
+    _sd = {}
+    for vi, (nm, fn, variant, per) in enumerate(V):
+        kind = seam_kind(nm, fn)
+        if kind not in _sd:
+            _sd[kind] = seam_days(kind, tier)
+        for blk in chunks(_sd[kind], 8 if kind == "dense" else 16):
+            seams.append((vi, blk))
     return [
+        Clause("calendar_seams", seams, run_calendar_seams, replay_sweep, floor=50000),
         Clause("every_event", every, run_every_event, replay_sweep, floor=50000),
         Clause("reused_epoch", chunks(reused, 32), run_reused, check_reused_epoch, floor=1000, shape="H"),
         Clause("spot_events", spots, run_spots, replay_sweep, floor=1000),
